@@ -618,12 +618,20 @@ func runClass(c ClassCase) []ev.Violation {
 }
 
 func TestC07(t *testing.T) {
-	rec.SetRule("histories of {tick = 30 s of simulated time + one scheduler step, advance, set outcome (200, 204, 404, 500, 503, refuse, network timeout, context deadline), proxy-detected connection failure through the real RetryHandler, RunHealthCheck} over 1..3 endpoints with generated check_interval/check_timeout accepted by validation, driving the real repository + HTTPHealthChecker with a scripted HTTP client; compared after every step with a reference scheduler (status, consecutive failures, backoff delay, breaker admission, real probes), followed by a recovery suffix; plus the status classification as a pure function over (code, latency, error class). non-trivial = >=4 consecutive failures followed by a success, or a proxy-detected failure inside the history (classification: latency above the slow threshold); distinct by history")
+	rec.SetRule("histories of {tick = 30 s of simulated time + one scheduler step, advance, set outcome (200, 204, 404, 500, 503, refuse, network timeout, context deadline), proxy-detected connection failure through the real RetryHandler, RunHealthCheck} over 1..3 endpoints with generated check_interval/check_timeout accepted by validation, driving the real repository + HTTPHealthChecker with a scripted HTTP client; compared after every step with a reference scheduler (status, consecutive failures, backoff delay, breaker admission, real probes), followed by a recovery suffix; plus the status classification as a pure function over (code, latency, error class). non-trivial = >=4 consecutive failures followed by a success, or a proxy-detected failure inside the history (classification: latency above the slow threshold); distinct by history Sub-check 'assembly' (production assembly, real backends, real model discovery): an endpoint that was discovered, fails 1..2 check rounds (503 or unreachable) and recovers with a changed model listing must be asked for its models again; one case per shard has an endpoint that is sick while Olla starts and fine afterwards: the scheduler loop itself (30 s ticker, real time) must probe it again and readmit it.")
 	rec.Assume("time is simulated by rewinding stored timestamps (endpoint NextCheckTime/LastChecked through the exported repository API, breaker timestamps through an overlay hook); due-ness within 3 s of the boundary is not asserted")
 	rec.Assume("a slow 2xx answer may be classified busy (documented) or healthy; unknown->healthy does not require a recovery callback")
-	if ev.Replay(t, rec, "history", runCase) || ev.Replay(t, rec, "classify", runClass) {
+	if ev.Replay(t, rec, "history", runCase) || ev.Replay(t, rec, "classify", runClass) || ev.Replay(t, rec, "assembly", runAsm) {
 		return
 	}
+	// one "loop" case per shard runs beside the other sub-checks (it waits for the real 30 s ticker)
+	loopDone := make(chan struct{})
+	go func() {
+		defer close(loopDone)
+		ev.Direct(rec, "assembly", AsmCase{Engine: []string{"sherpa", "olla"}[rec.Shard()%2], Scenario: "loop", N: 1 + rec.Shard()%2}, runAsm)
+	}()
+	defer func() { <-loopDone }()
 	ev.Check(t, rec, "classify", rec.Pick(3000, 50000), genClass, runClass)
 	ev.Check(t, rec, "history", rec.Pick(60, 1200), genCase, runCase)
+	ev.Check(t, rec, "assembly", rec.Pick(6, 120), genAsm, runAsm)
 }
